@@ -492,3 +492,11 @@ impl SqueezeParams {
         }
     }
 }
+
+/// Verification hooks (`--cfg jxl_oxide_verif`).
+#[cfg(jxl_oxide_verif)]
+pub mod verif {
+    pub use super::palette::verif as palette;
+    pub use super::rct::verif as rct;
+    pub use super::squeeze::verif as squeeze;
+}
